@@ -167,8 +167,21 @@ static inline VmTrap trap_error(VmState *vm, VmResult err, const char *fmt, ...)
  * external operation (I/O, FFI, halt) or completes / errors.
  * ======================================================================== */
 
+#ifdef NANOLANG_VERIF
+long long vm_verif_fuel = -1;
+void (*vm_verif_step_cb)(VmState *vm, const DecodedInstruction *instr, uint32_t instr_start) = NULL;
+static int vm_verif_env_read = 0;
+#endif
+
 VmTrap vm_core_execute(VmState *vm) {
     const uint8_t *code = vm->module->code;
+#ifdef NANOLANG_VERIF
+    if (!vm_verif_env_read) {
+        vm_verif_env_read = 1;
+        const char *vf = getenv("NANOLANG_VERIF_FUEL");
+        if (vf && *vf) vm_verif_fuel = atoll(vf);
+    }
+#endif
 
     /* Derive code_end from current function */
     const NvmFunctionEntry *cur_fn = &vm->module->functions[vm->current_fn];
@@ -185,6 +198,15 @@ VmTrap vm_core_execute(VmState *vm) {
         }
 
         uint32_t instr_start = vm->ip;
+#ifdef NANOLANG_VERIF
+        if (vm_verif_fuel >= 0) {
+            if (vm_verif_fuel == 0) {
+                return trap_error(vm, VM_ERR_NOT_IMPLEMENTED, "verif: instruction budget exhausted at offset %u", vm->ip);
+            }
+            vm_verif_fuel--;
+        }
+        if (vm_verif_step_cb) vm_verif_step_cb(vm, &instr, instr_start);
+#endif
         vm->ip += consumed;
 
         switch (instr.opcode) {
